@@ -8,15 +8,28 @@ import (
 	"io"
 	"math/rand"
 	"strings"
+	"sync"
 
 	"github.com/ulikunitz/xz/lzma"
 	"verif/internal/hx"
 	"verif/internal/ref"
 )
 
+var marginCache sync.Map
+
 // payload realises a Write token of the CallHist alphabet.
 func payload(tok string, seed int64, idx int, g W2Cfg) []byte {
 	s := seed*131 + int64(idx)
+	switch tok {
+	case "WmR", "WmT", "WmF":
+		// margin attack B (margin.go): the job's seed is the filler length
+		v, ok := marginCache.Load(seed)
+		if !ok {
+			v, _ = marginCache.LoadOrStore(seed, marginBuildB(1, int(seed)))
+		}
+		p := v.(*marginPayloadB)
+		return map[string][]byte{"WmR": p.R, "WmT": p.T, "WmF": p.F}[tok]
+	}
 	if g.Matcher == 1 && tok == "W5Mrz" {
 		// same reason: the extremely compressible tail is a long period of random bytes
 		p := g.DictCap / 2
